@@ -16,6 +16,7 @@ type specOpts struct {
 	smallMTUs  bool // prefer small inner MTUs so that fragmentation happens
 	withRec    bool // insert a recording decorator under every layer
 	honestFrag bool // only generate fragmenting MTUs whose part count fits the header field
+	errClose   bool // sometimes put a transport beneath whose Close reports an error
 }
 
 var muxKinds = []string{"string", "uint16", "uint32", "uint64", "varint"}
@@ -65,6 +66,9 @@ func genSpec(t *rapid.T, o specOpts) stack.Spec {
 		s.QueueLen = rapid.SampledFrom([]int{4096, 1024, 256}).Draw(t, "queueLen")
 		cur = s.BaseMTU
 		hasAsk, hasSec = true, true
+	}
+	if o.errClose && rapid.IntRange(0, 3).Draw(t, "errClose") == 0 {
+		s.Layers = append(s.Layers, stack.Layer{Kind: "errclose"})
 	}
 	depth := rapid.IntRange(0, o.maxDepth).Draw(t, "depth")
 	for d := 0; d < depth; d++ {
